@@ -94,7 +94,7 @@ func Main(property string) {
 		pan := takePanics()
 		fs := monitor(res)
 		if len(pan) > 0 {
-			fs = append(fs, Finding{"c01:panic:" + sc.shape(), "a producer goroutine panicked: " + pan[0]})
+			fs = append([]Finding{{panicSignature(res, sc), "a producer goroutine panicked: " + pan[0]}}, fs...) // the cause first
 		}
 		if len(fs) > 0 && !allConfirmed(fs, confirmed) {
 			// anything observed once is re-run: only a failure seen twice counts (a signature confirmed that way
@@ -103,7 +103,7 @@ func Main(property string) {
 			pan2 := takePanics()
 			fs2 := monitor(res2)
 			if len(pan2) > 0 {
-				fs2 = append(fs2, Finding{"c01:panic:" + sc.shape(), "a producer goroutine panicked: " + pan2[0]})
+				fs2 = append([]Finding{{panicSignature(res2, sc), "a producer goroutine panicked: " + pan2[0]}}, fs2...)
 			}
 			var both []Finding
 			for _, f := range fs {
@@ -228,4 +228,16 @@ func allConfirmed(fs []Finding, confirmed map[string]bool) bool {
 		}
 	}
 	return true
+}
+
+// panicSignature names the one panic with a known cause: newHighWatermark reached with brokerProducer == nil (the
+// previous retry level ended on a failed leader lookup and a message with a higher retry count arrives: the fin
+// chaser is sent through a nil broker producer).  Everything else keeps the generic signature.
+func panicSignature(res *Result, sc *Scenario) string {
+	for _, e := range res.Events {
+		if e.VerifProdEvent != nil && e.Kind == "pp.newHWM" && !e.HasBP {
+			return "c01:nil-broker-producer-at-new-level"
+		}
+	}
+	return "c01:panic:" + sc.shape()
 }
